@@ -6,7 +6,28 @@ use crate::rng::{hash_str, Rng};
 use crate::sup::{Check, Ctx, Stats, Summary};
 use nederlang::object::{FromString, FromVec, Object, Type};
 use nederlang::verif::{self, GC};
+use crate::val::{same_val, Val};
 use serde_json::json;
+
+/// literals for the `literal-pairs` family: spelling as written in a program
+const LITERALS: [&str; 34] = [
+    "0", "1", "-1", "7", "-7", "255", "256", "65535", "65536", "1152921504606846975", "-1152921504606846975", "0.0", "-0.0", "1.0", "-1.0", "0.5",
+    "-0.5", "0.1", "-0.1", "1.5", "100.25", "0.30000000000000004", "3.141592653589793", "1000000000000000000000.0", "-1000000000000000000000.0",
+    "0.000000000000000000001", "ja", "nee", "\"\"", "\"0\"", "\"0.0\"", "\"-0.0\"", "\"ja\"", "\"é\"",
+];
+
+fn literal_value(s: &str) -> Val {
+    if s == "ja" || s == "nee" {
+        Val::Bool(s == "ja")
+    } else if let Some(body) = s.strip_prefix('"') {
+        Val::Str(body.trim_end_matches('"').to_string())
+    } else if s.contains('.') {
+        // the nearest double of the decimal spelling; `-x` is the negation of the literal x
+        Val::Float(s.parse::<f64>().unwrap())
+    } else {
+        Val::Int(s.parse::<i64>().unwrap())
+    }
+}
 
 pub struct C15 {
     lattice: Vec<i64>,
@@ -225,6 +246,7 @@ impl C15 {
                 ("string-1MiB", 0),
                 ("array", 100),
                 ("pairs-row", 24),
+                ("literal-pairs", 40),
             ]);
         }
         Families::new(vec![
@@ -238,6 +260,7 @@ impl C15 {
             ("string-1MiB", 1),
             ("array", t.pick(3_000, 100_000)),
             ("pairs-row", self.sample.len() as u64),
+            ("literal-pairs", (LITERALS.len() * LITERALS.len()) as u64),
         ])
     }
 
@@ -415,6 +438,24 @@ impl Check for C15 {
                     st.violation("roundtrip:array", e, &txt);
                 }
             }
+            "literal-pairs" => {
+                // two literals written in one program (so that they meet in the constant pool), each twice, directly
+                // and through variables: what is read back must be what was written, bit for bit
+                let n = LITERALS.len() as u64;
+                let i = if ctx.flavour == crate::sup::Flavour::Miri { (i * 41 + ctx.seed) % (n * n) } else { i };
+                let (x, y) = (LITERALS[(i / n) as usize], LITERALS[(i % n) as usize]);
+                let text = format!("stel p = {x}; stel q = {y}; functie f(a) {{ [a, {y}, {x}] }}; [{x}, {y}, q, p, {x}, f({y})]");
+                let (vx, vy) = (literal_value(x), literal_value(y));
+                let want = Val::Array(vec![vx.clone(), vy.clone(), vy.clone(), vx.clone(), vx.clone(), Val::Array(vec![vy.clone(), vy.clone(), vx.clone()])]);
+                let o = crate::obs::eval_observed(&text, &crate::obs::ObsCfg::plain(10_000));
+                st.evaluations += 1;
+                st.count("literal-pairs");
+                st.distinct_hash(hash_str(&text));
+                let ok = matches!(&o.outcome, crate::obs::Outcome::Value(v) if same_val(v, &want));
+                if !ok {
+                    st.violation("literal-pairs:read-back", format!("expected {}, got {}", crate::val::render_val(&want), o.outcome.render()), &text);
+                }
+            }
             "pairs-row" => {
                 let a = &self.sample[i as usize];
                 let mut gc = GC::new();
@@ -465,7 +506,7 @@ impl Check for C15 {
             inconclusive.push(format!("pairwise cross product incomplete: {} pairs", pairs));
         }
         Summary {
-            rule: "constructors of nederlang::object::Object called directly, read back through tag/as_*/is_heap_allocated; distinct = distinct value descriptions (and distinct ordered pairs); every case is non-trivial (an actual encode/decode)".to_string(),
+            rule: "constructors of nederlang::object::Object called directly, read back through tag/as_*/is_heap_allocated; plus every ordered pair of 34 literal spellings (integers up to both range ends, floats incl. both zeros and 17-digit fractions, booleans, strings that spell numbers) written together in one program, directly, through variables and through a function, and read back from the result; distinct = distinct value descriptions (and distinct ordered pairs); every case is non-trivial (an actual encode/decode)".to_string(),
             exhaustive: Some(true),
             extra: json!({
                 "exhaustive_parts": ["int lattice", "function (offset,count) boundary grid", "200x200 pairwise cross product"],
